@@ -89,8 +89,13 @@ def evaluate(
   # Set up the permission and context.
   # NOTE: an empty permission set (`CodePermission(0)`) is falsy, thus we test
   # against None instead of the truthiness of `permission`.
+  # A permission scope set by the caller (see `pg.coding.permission`) can only be
+  # narrowed by the `permission` argument, never widened.
+  scoped_permission = permissions.get_permission()
   if permission is None:
-    permission = permissions.get_permission()
+    permission = scoped_permission
+  elif scoped_permission is not None:
+    permission = permission & scoped_permission
   ctx = dict(get_context())
   if global_vars:
     ctx.update(global_vars)
